@@ -136,6 +136,40 @@ pub fn run(o: &Opts) -> i32 {
                     }
                 }
             }
+            // a bare substance converted to a unit (`water -> g`): a property with a dimensioned input is listed as a
+            // ratio in printed unit names; read back (names resolved by Context::lookup) it must be output / input
+            for (pname, p) in s.properties.properties.iter() {
+                if !plain(pname) || p.input.dimless() { continue; }
+                for (num, den) in [(&p.output, &p.input), (&p.input, &p.output)] {
+                    if num.dimless() { continue; }
+                    let cands: Vec<&String> = reg.units.iter().filter(|(n, v)| v.unit == num.unit && v.value != Numeric::from(1) && v.value != Numeric::from(0) && plain(n) && n.len() < 12).map(|(n, _)| n).take(40).collect();
+                    if cands.is_empty() { continue; }
+                    for _ in 0..2 {
+                        let u = *rng.pick(&cands);
+                        let reference = match num / den { Some(r) => r, None => continue };
+                        if let Some(QueryReply::Substance(r)) = ev(&format!("{} -> {}", sname, u)) {
+                            let listed: Vec<_> = r.properties.iter().filter(|x| &x.name == pname).collect();
+                            if listed.len() != 1 { continue; }
+                            let rv = match listed[0].value.raw_value.as_ref() { Some(v) => v, None => continue };
+                            // read the printed names back
+                            let mut den_ok = true;
+                            let mut acc = Number::new(rv.value.clone());
+                            for (name, power) in rv.unit.iter() {
+                                match ctx.lookup(&name.to_string()) {
+                                    Some(v) if *power >= i32::MIN as i64 && *power <= i32::MAX as i64 => { match &acc * &v.powi(*power as i32) { Some(x) => acc = x, None => den_ok = false } }
+                                    _ => den_ok = false,
+                                }
+                            }
+                            if !den_ok { continue; }
+                            paths_checked += 1;
+                            if acc != reference {
+                                nviol += 1;
+                                writeln!(orc, "{}", json!({"law": "printed-ratio-denotes", "query": format!("{} -> {}", sname, u), "property": pname, "want": fmt_number(&reference), "got": fmt_number(&acc), "printed": fmt_number(rv)})).unwrap();
+                            }
+                        }
+                    }
+                }
+            }
             for (pname, p) in s.properties.properties.iter() {
                 if !plain(pname) || !p.input.dimless() || p.output.unit.is_dimensionless() { continue; }
                 let unit_text: String = p.output.unit.iter().map(|(k, e)| format!("{}^{}", k, e)).collect::<Vec<_>>().join(" ");
